@@ -41,6 +41,7 @@ def run(ctx, sess, P, G, T, reach, roots, exc):
     ctx.rule('C10.17', 'interior pointers follow the block: when a block that other pointer fields of the same object point into is reallocated, each of those fields is stored again on every success path after the new block is installed')
     ctx.rule('C10.18', 'accepted definitions only: a value the threaded writer keeps from a definition request (the per-signal entry size) is stored only on the zero-result edge of the synchronous definition call')
     ctx.rule('C10.19', 'a successful realloc is never dropped: on every path on which the result is not NULL it is stored back into the field it was taken from before the function returns or indexes that field (the old block may already be freed)')
+    ctx.rule('C10.20', 'bisection stays inside the array: in a search loop `lo < hi` that probes x[mid] with mid = (lo + hi + 1) / 2 (which can equal hi), the initial hi is length - 1, not length')
     ctx.rule('C10.12', 'no read of uninitialised instance memory: every field of a malloc\'ed instance that is read anywhere is initialised before the instance is published')
     r4(ctx, P)
     r5(ctx, P, reach)
@@ -59,6 +60,7 @@ def run(ctx, sess, P, G, T, reach, roots, exc):
     c10c.r17(ctx, P)
     c10c.r18(ctx, P)
     c10c.r19(ctx, P)
+    c10c.r20(ctx, P)
 
 
 def r4(ctx, P):
